@@ -27,6 +27,14 @@ Theorem C18_S_closed : forall t x y, In t ctxs -> inS t x = true -> inS t y = tr
 Proof. exact S_closed. Qed.
 Print Assumptions C18_S_closed.
 
+(* S_tau cannot be enlarged in single precision: every dtype outside the precision class of float32 / complex64 can push a
+   value out of the class with at most two promotions by members of S_tau (e.g. (bool * 1.0) * f32 = f64) - which is why
+   boolean / integer leaves must be tracked *)
+Theorem C18_S_maximal_single : forall t x, In t singles -> inP t x = false ->
+  exists y z, inS t y = true /\ inS t z = true /\ inP t (promote (promote x y) z) = false.
+Proof. exact S_maximal_single. Qed.
+Print Assumptions C18_S_maximal_single.
+
 (* every expression whose leaves are the context tau or weak int/float scalars evaluates inside that set, and to tau
    as soon as one leaf is strong *)
 Theorem C18_ctx_preserved_expr : forall en st t e, In t ctxs -> leaves_in en st t e = true ->
@@ -45,20 +53,6 @@ Theorem C18_prog_context_preserved : forall en p, is_real (tau en) = true -> pro
 Proof. exact prog_context_preserved. Qed.
 Print Assumptions C18_prog_context_preserved.
 
-(* all modelled entry points, all option sets (incl. the exception fallback of active_set_nnls, repaired by c906acd),
-   mask (if any) in the data's dtype: *)
-Theorem C18_skeletons_preserve_precision : forall t c n s e,
-  In t ctxs -> valid_cfg c -> In (s, e) (p_outs (skeleton c)) -> float_out (s, e) = true ->
-  strongP t (eval (mkenv t t) (run (mkenv t t) (skeleton c) n) e) = true.
-Proof. exact skeletons_preserve_precision. Qed.
-Print Assumptions C18_skeletons_preserve_precision.
-
-Theorem C18_skeletons_preserve_context_partial : forall t c n s e,
-  is_real t = true -> valid_cfg c -> In (s, e) (p_outs (skeleton c)) -> float_out (s, e) = true ->
-  eval (mkenv t t) (run (mkenv t t) (skeleton c) n) e = t.
-Proof. exact skeletons_preserve_context. Qed.
-Print Assumptions C18_skeletons_preserve_context_partial.
-
 (* a mask that only occurs on the value side of a cast into the data's context cannot influence ANY dtype of ANY program
    of the language (induction over expressions, statements and sweeps) *)
 Theorem C18_guarded_mask_irrelevant : forall t m m' p n, prog_guarded p = true ->
@@ -66,13 +60,22 @@ Theorem C18_guarded_mask_irrelevant : forall t m m' p n, prog_guarded p = true -
 Proof. exact guarded_mask_irrelevant. Qed.
 Print Assumptions C18_guarded_mask_irrelevant.
 
-(* hence the skeletons WITH the mask cast (the candidate repair build/fix_candidates/C18_mask_context.diff, mc = true)
-   keep every output in the data's precision for EVERY mask dtype m, every option set, every number of sweeps *)
-Theorem C18_cast_skeletons_any_mask : forall t m c n s e,
-  In t ctxs -> valid_cfg c -> In (s, e) (p_outs (skeleton_v true c)) -> float_out (s, e) = true ->
-  strongP t (eval (mkenv t m) (run (mkenv t m) (skeleton_v true c) n) e) = true.
-Proof. exact cast_skeletons_any_mask. Qed.
-Print Assumptions C18_cast_skeletons_any_mask.
+(* all modelled entry points, all option sets (incl. the exception fallback of active_set_nnls, repaired by c906acd),
+   EVERY mask dtype m (the masked entry points cast the mask since the repair 45ef7df), every number of sweeps:
+   every floating output stays in the precision class of the data's dtype t *)
+Theorem C18_skeletons_any_mask : forall t m c n s e,
+  In t ctxs -> valid_cfg c -> In (s, e) (p_outs (skeleton c)) -> float_out (s, e) = true ->
+  strongP t (eval (mkenv t m) (run (mkenv t m) (skeleton c) n) e) = true.
+Proof. exact skeletons_any_mask. Qed.
+Print Assumptions C18_skeletons_any_mask.
+
+(* ... and equals t itself for real t (for complex t the real-valued outputs - norms, errors, singular values - are in
+   the real type of the same precision, which is what strongP allows) *)
+Theorem C18_skeletons_preserve_context_partial : forall t m c n s e,
+  is_real t = true -> valid_cfg c -> In (s, e) (p_outs (skeleton c)) -> float_out (s, e) = true ->
+  eval (mkenv t m) (run (mkenv t m) (skeleton c) n) e = t.
+Proof. exact skeletons_preserve_context. Qed.
+Print Assumptions C18_skeletons_preserve_context_partial.
 
 (* robust_pca casts the mask into the data's context: clean for every mask dtype (in both variants) *)
 Theorem C18_robust_pca_any_mask : forall mc t m n s e, In t ctxs -> In (s, e) (p_outs (skeleton_v mc (with_mask (cfg0 FRobustPca)))) ->
@@ -80,7 +83,8 @@ Theorem C18_robust_pca_any_mask : forall mc t m n s e, In t ctxs -> In (s, e) (p
 Proof. exact robust_pca_any_mask. Qed.
 Print Assumptions C18_robust_pca_any_mask.
 
-(* refutations: WITHOUT the cast (mc = false) a boolean / integer mask turns float32 data into float64 results *)
+(* refutations: WITHOUT the cast (mc = false, the code before the repair 45ef7df) a boolean / integer mask turns float32
+   data into float64 results - why the cast is necessary *)
 Theorem C18_parafac_bool_mask_refuted : exists n, out_of_v false (mkenv F32 B) (with_mask (cfg0 FParafac)) n "factors" = Some F64.
 Proof. exact parafac_bool_mask_refuted. Qed.
 Print Assumptions C18_parafac_bool_mask_refuted.
@@ -110,7 +114,8 @@ Example C18_nonvacuous_cfg : valid_cfg (with_mask (cfg0 FParafac)) /\ In F32 ctx
   out_of (mkenv F32 F32) (with_mask (cfg0 FParafac)) 7 "factors" = Some F32 /\
   out_of (mkenv C128 C128) (cfg0 FParafac) 3 "weights" = Some C128 /\
   prog_guarded (skeleton_v true (with_mask (cfg0 FTucker))) = true /\ prog_guarded (skeleton_v false (with_mask (cfg0 FTucker))) = false /\
-  out_of_v true (mkenv F32 B) (with_mask (cfg0 FParafac)) 2 "factors" = Some F32.
+  out_of (mkenv F32 B) (with_mask (cfg0 FParafac)) 2 "factors" = Some F32 /\
+  out_of (mkenv C64 I64) (with_mask (cfg0 FTucker)) 3 "core" = Some C64.
 Proof. repeat split; try (vm_compute; reflexivity); simpl; tauto. Qed.
 Example C18_nonvacuous_expr :
   leaves_in (mkenv F32 F32) st0 F32 (Op (Div In_ (Op PyI PyF)) (Into In_ bare)) = true /\
